@@ -38,10 +38,17 @@ def state_stores(f, name="state"):
                 continue
             ds = [d for d in f.defs(l) if d.get("p") and len(d["p"]) == 1 and d["kind"] in ("assign", "call")]
             seen, cur = set(), l
-            while len(ds) == 1 and ds[0]["kind"] == "assign" and cur not in seen:
+            while len(ds) == 1 and cur not in seen:
                 seen.add(cur)
-                rv = ds[0]["rv"]
-                pl = op_place(rv[1]) if rv[0] == "use" else (rv[2] if rv[0] == "ref" else None)
+                if ds[0]["kind"] == "call":
+                    # `&mut state[RANGE]`, `state.as_mut_slice()`: a window of the same storage
+                    tt = ds[0]["term"]
+                    if (callee_of(tt) or {}).get("name") not in ("index_mut", "deref_mut", "as_mut_slice", "as_mut") or not tt["a"] or op_local(tt["a"][0]) is None:
+                        break
+                    pl = [op_local(tt["a"][0])]
+                else:
+                    rv = ds[0]["rv"]
+                    pl = op_place(rv[1]) if rv[0] == "use" else (rv[2] if rv[0] == "ref" else None)
                 if not pl or any(e != "*" for e in pl[1:]):
                     break
                 cur = pl[0]
@@ -109,6 +116,60 @@ def eval_index(p, an, f, op, pos, depth=0):
     return iv[0] if iv is not None and iv[0] == iv[1] else None
 
 
+ITER_ADAPTERS = {"iter", "into_iter", "iter_mut", "enumerate", "zip", "chunks", "chunks_exact", "rev", "by_ref", "deref", "as_slice",
+                 "as_ref", "borrow", "copied", "cloned", "peekable"}
+
+
+def _iterated_roots(f, L):
+    """locals denoting the collection a for-loop runs over (through iterator adapters and references, not through
+    conversions such as slice_as_base_elements)."""
+    t = f.term(L["header"])
+    seen, todo = set(), [op_local(t["a"][0])]
+    while todo:
+        x = todo.pop()
+        if x is None or x in seen:
+            continue
+        seen.add(x)
+        for d in f.defs(x):
+            if d["kind"] == "assign" and d.get("p") and len(d["p"]) == 1:
+                rv = d["rv"]
+                pl = op_place(rv[1]) if rv[0] == "use" else (rv[2] if rv[0] in ("ref", "rawptr") else (op_place(rv[2]) if rv[0] == "cast" else None))
+                if pl:
+                    todo.append(pl[0])
+            elif d["kind"] == "call" and (callee_of(d["term"]) or {}).get("name") in ITER_ADAPTERS:
+                for a in d["term"]["a"][:2]:
+                    todo.append(op_local(a))
+    return seen
+
+
+def _len_is_of_absorbed_input(f, sl):
+    """the len() in this slice is taken of the very collection the absorption loop runs over (an element count of
+    the un-converted input, e.g. extension elements instead of base elements, is a different length)."""
+    from .c03 import for_loops
+    from ..panics import _container_roots
+    perms = set(perm_blocks(f))
+    loops = [L for L in for_loops(f) if any(b in L["own_body"] for b in perms) or any(bi in L["own_body"] for bi, _ in state_stores(f))]
+    if not loops:
+        return True, ""
+    lens = []
+    for b in sl["calls"]:
+        t = f.term(b)
+        if (callee_of(t) or {}).get("name") == "len" and t["a"] and op_local(t["a"][0]) is not None:
+            lens.append(_container_roots(f, op_local(t["a"][0])))
+    for l in sl["locals"]:
+        for d in f.defs(l):
+            if d["kind"] == "assign" and d["rv"][0] == "un" and d["rv"][1] == "PtrMetadata" and op_local(d["rv"][2]) is not None:
+                lens.append(_container_roots(f, op_local(d["rv"][2])))
+    if not lens:
+        return True, ""
+    it = set()
+    for L in loops:
+        it |= _iterated_roots(f, L)
+    if any(r & it for r in lens):
+        return True, ""
+    return False, "the length that reaches the sponge is not the length of the collection the absorption loop runs over"
+
+
 def r1_length_absorbed(ctx):
     p = ctx.p
     for ty in RESCUE:
@@ -128,6 +189,10 @@ def r1_length_absorbed(ctx):
                     if op_local(o) is not None:
                         sl = f.slice_of_operand(o, at=s["_pos"])
                 if sl and "len" in names_in(f, sl) and 1 in sl["args"] and f.must_cross(perms, cut_blocks=[bi]):
+                    same, why = _len_is_of_absorbed_input(f, sl)
+                    if not same:
+                        how = why
+                        continue
                     ok, how = True, "the state is initialised with a value derived from the input's len() before any permutation (%s)" % ir.line_of(s["sp"]["at"])
                     continue
                 # control dependence: a domain flag stored only when a test on the length says so,
@@ -143,7 +208,10 @@ def r1_length_absorbed(ctx):
                     reach = [bi in f.reach([tg], cut_blocks=perms) for tg in outs]
                     if any(reach) and not all(reach):
                         marker = _end_marker(f)
-                        if marker:
+                        same, why = _len_is_of_absorbed_input(f, dsl)
+                        if marker and not same:
+                            how = why
+                        elif marker:
                             ok, how = True, "a domain flag is stored depending on a test of the input's len() (%s) and a ONE marker is stored at the running position before the final permutation (%s)" % (
                                 ir.line_of(s["sp"]["at"]), marker)
             ctx.ob("R1", "length-absorbed:%s::%s" % (ty.split("::")[-1], nm), ok, how, f)
